@@ -81,6 +81,9 @@ func genWireCase(c *Ctx) *hcase {
 	k.pps, _ = base64.StdEncoding.DecodeString("aM48gA==")
 	k.ascraw = aac.Encode2BytesASC(2, byte(rateIdx[k.rate]), 1)
 	k.inband = c.Rng.Chance(40)
+	if c.Rng.Chance(35) {
+		k.conc = 1
+	}
 	frameDur := int64([]int{18000, 30000, 45000}[c.Rng.Intn(3)])
 	gopFrames := int64(2 + c.Rng.Intn(20))
 	if c.Rng.Chance(25) {
@@ -170,6 +173,24 @@ func runWire(k *hcase, in string) (res result) {
 	goFind := func(class, impl, spec string) {
 		res.goFinds = append(res.goFinds, Finding{Kind: "oracle", Class: class, Case: in, Impl: impl, Spec: spec})
 	}
+	// HLS clients inside the roll-overs (rollover.go), through the HTTP handlers; the one at the schedule
+	// points runs on the muxer goroutine
+	rc := newRolloverClients(k, in, &res,
+		func() ([]byte, bool) {
+			if len(pl.VerifSegments()) < 3 { // GetM3u8 polls for seconds while the playlist is not ready
+				return nil, false
+			}
+			o := httpM3u8(path, k.token)
+			return o.body, o.status == 200
+		},
+		func(seq int) ([]byte, int, bool) {
+			o := httpTS(path, seq)
+			n, _ := strconv.Atoi(o.hdr.Get("Content-Length"))
+			return o.body, n, o.status == 200
+		})
+	sg.VerifOnRollover(rc.atPoint)
+	rc.start()
+	defer func() { rc.finish(); sg.VerifOnRollover(nil) }()
 	captured := map[int][]byte{}
 	// wait until the muxer goroutine has processed every frame handed in so far (it is back at its
 	// queue): an event, not a delay; the budget only bounds a goroutine that is gone or stuck
@@ -323,6 +344,7 @@ func runWire(k *hcase, in string) (res result) {
 		res.goFinds = append(res.goFinds, Finding{Kind: "corr", Class: "wire-muxer-stopped", Case: in,
 			Impl: fmt.Sprintf("the TS muxer goroutine did not come back for the next frame within %v", wireSettleBudget)})
 	}
+	rc.finish()
 	query()
 	if cur, ok, _, _ := sg.VerifCurrent(); ok {
 		res.tokens = append(res.tokens, fmt.Sprintf("C:%d:%s", cur.SequenceNo, Hx(sg.VerifCurrentBytes())))
